@@ -1,45 +1,94 @@
 package main
 
 import (
-	"bytes"
 	"fmt"
 	"go/ast"
+	"go/build"
+	"go/importer"
 	"go/parser"
-	"go/printer"
 	"go/token"
+	"go/types"
 	"os"
 	"path/filepath"
 	"sort"
 	"strings"
 )
 
-// SyncSkel: synchronisation skeletons (DESIGN.md §4, T-gen, "gen-sync (b)").
+// SyncSkel: synchronisation skeletons in NORMAL FORM (DESIGN.md §4, T-gen, "gen-sync (b)").
 //
-// For every function of skelTable the translator emits the ordered list of its
-// sync-relevant AST events as Lean data of type GolibsVerif.Skel.Skeleton (the token type
-// lives in lean/GolibsVerif/Go/Skel.lean).  The hand-written transition systems keep the
-// skeleton they were written against; `theorem skel_X : Gen.SyncSkel.X = Expected.X := by
-// decide` then turns any edit of the synchronisation structure into a broken obligation.
+// For every ENTRY POINT of skelTable the translator emits the function's *event graph*: a
+// finite labelled transition system whose edges are the synchronisation-relevant events of
+// the function, in Go's evaluation order, on every control path.  The Lean type is
+// GolibsVerif.Skel.Graph (lean/GolibsVerif/Go/Skel.lean); `theorem skel_X :
+// Gen.SyncSkel.X = Expected.X := by decide` pins it.
 //
-// What is an event:
-//   - every channel operation (receive, send, close, make(chan), select with its cases),
-//   - every go and defer statement, every return (with its printed results), break and
-//     continue, panic(...) and recover(),
-//   - every assignment to a named result of the function (status / error aggregation),
-//   - every call whose callee name (the selector's last identifier) is in the group's
-//     `calls` list,
-//   - the loops, ifs and expression switches that contain at least one event (with the
-//     printed condition / operand / case expressions); structures without events inside
-//     are pruned, so adding a log line or a metric does not disturb a skeleton.
+// The graph is computed from the type-checked source (go/types) as follows.
 //
-// Events are emitted in Go's evaluation order: arguments before the call, the channel
-// operands of all select cases before the `select` token, a loop condition inside the loop.
+//  1. EVENTS (edge labels)
+//     - every channel operation: receive, send, close, make(chan), select (one `select`
+//     edge into a choice node that has one edge per case: caseRecv / caseSend /
+//     caseDefault); the operands of all cases are evaluated, in source order, before the
+//     `select` edge, as Go does;
+//     - go and defer statements; return of the entry point; panic(...) and recover();
+//     - every DYNAMIC call: a method called through an interface value (Shutdown, Refresh,
+//     Handle, UntilNext, After, Now, New, Notify, ctx.Done, ...) or a call of a function
+//     VALUE (a parameter, a field, a result such as the `cancel` of context.WithTimeout);
+//     - every static call into another package that is not known to be free of
+//     synchronisation (see sgClassify: sync, sync/atomic, context, os/signal, runtime and
+//     the timer functions of time are always events; fmt, errors, slices, log/slog, ... and
+//     golibs' errors / slogutil (except RecoverAndLog*) are pure; an UNKNOWN package is an
+//     event, so it shows up in the skeleton rather than being skipped).
+//     Logging, error wrapping, arithmetic, assignments (also to named results) are NOT events.
 //
-// go/ast only; no type information is used.  Constructs outside the subset (labels, goto,
-// fallthrough, type switches) make the translator fail, which ./check reports as a broken
-// tie.
+//  2. INLINING.  A static call of a function or method of the SAME package is replaced by
+//     the callee's body (recursion fails loudly).  A callee's `return` ends the callee only.
+//     If the callee's own body registers a defer or calls recover() the inlined body is
+//     bracketed by `frame` … `endFunc` (its frame is semantically relevant: deferred calls
+//     run, and recover() is effective, relative to that frame); otherwise there is no trace
+//     of the call, so extracting or inlining such a helper does not change the graph.
+//     Function literals: called on the spot -> inlined like a helper; deferred ->
+//     `deferFunc` … `endFunc`; started with go -> `goFunc` … `endFunc`; a local that is only
+//     ever called -> inlined at each call; any other literal (it escapes as a value) ->
+//     `funcLit` … `endFunc` at the point of evaluation.  `defer f(...)` / `go f(...)` of a
+//     same-package f is treated as `defer func() { f(...) }()` with f's body as the frame.
+//
+//  3. CONTROL FLOW.  Statements are translated into a control-flow graph; conditions are
+//     compiled as control flow (`!`, `&&`, `||` by short circuit, constants folded, a
+//     boolean helper's `return e` compiled against the caller's two continuations, so that
+//     `return true` / `return !w.isShutDown()` thread through).  A residual (opaque)
+//     condition becomes a node with two edges `cond c true` / `cond c false`, where c is a
+//     canonical, NAME-FREE description of the tested value (sgDesc): locals are replaced by
+//     their definition, parameters of inlined helpers by the actual arguments, the receiver
+//     by `recv`, parameters of the entry point by `p<i>`, `x != y` is the negation of
+//     `x == y` (operands sorted), `a > b` is `b < a`; a switch is the chain of its case
+//     tests (see 4 for chains).  Channel operands are described the same way, and a
+//     channel- or sync-typed struct field by its TYPE (`recv.<chan unit>`), not its name.
+//     Loops over a slice are recognised semantically: `for i := len(s)-1; i >= 0; i--`,
+//     `for i := len(s); i > 0; i--` (indexing s[i-1]) and `range slices.Backward(s)` all
+//     give `cond "range backward s"`; `range s`, `for i := 0; i < len(s); i++`,
+//     `slices.All/Values` give `range forward s`.  `for v := range ch` is the loop
+//     `v, ok := <-ch; if !ok { break }`.
+//
+//  4. NORMALISATION.  ε-edges are contracted; the graph is quotiented by bisimilarity
+//     (partition refinement), every condition node whose arms lead to the same state is
+//     removed, and a chain of conditions with no event in between that share a target is
+//     merged into one disjunction with sorted literals (`if a {X}; if b {X}; Y`, `if a || b`,
+//     `switch { case a, b: }` and `case b: … case a:` with equal bodies are the same node;
+//     `a && b` is the chain towards its false target, `!(a) || !(b)`); this is repeated to a
+//     fixed point.  An event-free loop is removed with its condition.  The result is numbered breadth-first from the entry, edges sorted by
+//     label.  Consequently the graph does not depend on: if/else vs. early return /
+//     continue, switch vs. if-chain, the order of select cases, loop rotation and peeling,
+//     where a helper boundary lies, names of locals / parameters / helpers, or statements
+//     that are not events.  It DOES depend on: the order of events on every path, which
+//     choices exist at which point (one select vs. two nested ones, with or without
+//     default), the registration order of defers and the frame they belong to, and the
+//     direction of slice iteration.
+//
+// Constructs outside the subset (labels, goto, fallthrough, type switches, recursion,
+// range over an unknown iterator function of the same package, two select cases on the
+// same channel) make the translator emit `untranslatable`, which breaks the obligation.
 
-// skelTarget names one function: directory under the repo, receiver type name ("" for a
+// skelTarget names one entry point: directory under the repo, receiver type name ("" for a
 // plain function) and function name.
 type skelTarget struct {
 	pkgDir string
@@ -49,46 +98,112 @@ type skelTarget struct {
 
 // skelGroup is the unit in which properties register their functions.
 type skelGroup struct {
-	prop    string   // the property whose model depends on these skeletons
-	calls   []string // callee names that count as events inside these functions
+	prop    string
 	targets []skelTarget
 }
 
-// skelTable is THE table: to put another function under skeleton control, add a target
-// (and, if needed, callee names) to the group of your property, or add a group.  The Lean
-// name of a skeleton is <last element of pkgDir>_<recv>_<name> (recv omitted when empty).
+// skelTable is THE table: to put another entry point under skeleton control, add a target.
+// Only entry points (exported API, or functions started by it) are listed: everything they
+// call inside their package is inlined.  The Lean name is <pkg>_<recv>_<name>.
 var skelTable = []skelGroup{
 	{
 		prop: "C18",
-		calls: []string{
-			// service lifecycle
-			"Shutdown", "shutdown", "shutdownService", "Refresh", "refresh", "refreshInALoop", "Handle",
-			// clock and schedule
-			"UntilNext", "After", "Now",
-			// contexts
-			"New", "cancel", "WithTimeout",
-			// signals
-			"IsShutdownSignal", "isShutdownSignal", "Notify", "NotifyShutdownSignal", "notifyShutdownSignal",
-			// panic handling
-			"RecoverAndLog", "RecoverAndLogDefault", "FromRecovered",
-		},
 		targets: []skelTarget{
+			// inlines shutdown, shutdownService (and whatever helpers they are split into)
 			{"service", "SignalHandler", "Handle"},
-			{"service", "SignalHandler", "shutdown"},
-			{"service", "", "shutdownService"},
+			// inlines refreshInALoop (as the body of the goroutine), refresh
 			{"service", "RefreshWorker", "Start"},
-			{"service", "RefreshWorker", "refreshInALoop"},
-			{"service", "RefreshWorker", "refresh"},
+			// inlines refresh
 			{"service", "RefreshWorker", "Shutdown"},
-			{"osutil", "", "isShutdownSignal"},
+			// inlines isShutdownSignal (unix)
+			{"osutil", "", "IsShutdownSignal"},
 		},
 	},
 }
 
+// ---------------------------------------------------------------------------------------
+// classification of static calls into other packages
+
+var sgAlwaysEventPkgs = map[string]bool{
+	"sync": true, "sync/atomic": true, "context": true, "os/signal": true, "runtime": true,
+}
+
+var sgPurePkgs = map[string]bool{
+	"fmt": true, "errors": true, "cmp": true, "slices": true, "maps": true, "strings": true,
+	"strconv": true, "bytes": true, "unicode": true, "unicode/utf8": true, "math": true,
+	"math/bits": true, "sort": true, "log/slog": true, "time": true,
+	"github.com/AdguardTeam/golibs/errors":           true,
+	"github.com/AdguardTeam/golibs/logutil/slogutil": true,
+}
+
+// exceptions inside pure packages: these are events
+var sgEventFuncs = map[string]bool{
+	"time.After": true, "time.AfterFunc": true, "time.NewTimer": true, "time.NewTicker": true,
+	"time.Sleep": true, "time.Tick": true,
+	"time.Timer.Stop": true, "time.Timer.Reset": true, "time.Ticker.Stop": true, "time.Ticker.Reset": true,
+	// they call recover(); they are only meaningful when deferred directly
+	"github.com/AdguardTeam/golibs/logutil/slogutil.RecoverAndLog":        true,
+	"github.com/AdguardTeam/golibs/logutil/slogutil.RecoverAndLogDefault": true,
+}
+
+// sgFuncLabel is the label of a static external callee: Name or Type.Method.
+func sgFuncLabel(f *types.Func) (qualified, short string) {
+	pkgPath := ""
+	if f.Pkg() != nil {
+		pkgPath = f.Pkg().Path()
+	}
+	short = f.Name()
+	if sig, ok := f.Type().(*types.Signature); ok && sig.Recv() != nil {
+		rt := sig.Recv().Type()
+		if p, ok := rt.(*types.Pointer); ok {
+			rt = p.Elem()
+		}
+		switch n := rt.(type) {
+		case *types.Named:
+			short = n.Obj().Name() + "." + short
+		case *types.Alias:
+			short = n.Obj().Name() + "." + short
+		}
+	}
+	return pkgPath + "." + short, short
+}
+
+// sgClassify reports whether a static call of the external function f is an event.
+func sgClassify(f *types.Func) bool {
+	q, _ := sgFuncLabel(f)
+	if sgEventFuncs[q] {
+		return true
+	}
+	if f.Pkg() == nil {
+		return false // universe (error.Error is an interface method and handled elsewhere)
+	}
+	p := f.Pkg().Path()
+	if sgAlwaysEventPkgs[p] {
+		return true
+	}
+	if sgPurePkgs[p] {
+		return false
+	}
+	return true // unknown package: show it
+}
+
+// ---------------------------------------------------------------------------------------
+// loading
+
+type sgPkg struct {
+	fset  *token.FileSet
+	files []*ast.File
+	pkg   *types.Package
+	info  *types.Info
+	decls map[*types.Func]*ast.FuncDecl
+	defs  map[types.Object][]sgDef
+	// idents that stand in callee position of a call / defer / go
+	calleeIdents map[*ast.Ident]bool
+}
+
 // skelParseDir parses the non-test files of dir that are built on unix (the platform the
 // check runs on); verif-tagged export files are skipped.
-func skelParseDir(dir string) (*token.FileSet, []*ast.File, error) {
-	fset := token.NewFileSet()
+func skelParseDir(fset *token.FileSet, dir string) ([]*ast.File, error) {
 	matches, _ := filepath.Glob(filepath.Join(dir, "*.go"))
 	sort.Strings(matches)
 	var files []*ast.File
@@ -99,7 +214,7 @@ func skelParseDir(dir string) (*token.FileSet, []*ast.File, error) {
 		}
 		f, err := parser.ParseFile(fset, m, nil, parser.ParseComments)
 		if err != nil {
-			return nil, nil, err
+			return nil, err
 		}
 		skip := false
 		for _, cg := range f.Comments {
@@ -119,43 +234,191 @@ func skelParseDir(dir string) (*token.FileSet, []*ast.File, error) {
 			files = append(files, f)
 		}
 	}
-	return fset, files, nil
+	return files, nil
 }
 
-func recvTypeName(fd *ast.FuncDecl) string {
-	if fd.Recv == nil || len(fd.Recv.List) == 0 {
-		return ""
+func sgLoad(dir string, fset *token.FileSet, imp types.Importer) (*sgPkg, error) {
+	files, err := skelParseDir(fset, dir)
+	if err != nil {
+		return nil, err
 	}
-	t := fd.Recv.List[0].Type
+	if len(files) == 0 {
+		return nil, fmt.Errorf("no Go files in %s", dir)
+	}
+	info := &types.Info{
+		Defs: map[*ast.Ident]types.Object{}, Uses: map[*ast.Ident]types.Object{},
+		Types: map[ast.Expr]types.TypeAndValue{}, Selections: map[*ast.SelectorExpr]*types.Selection{},
+		Implicits: map[ast.Node]types.Object{},
+	}
+	var errs []string
+	conf := types.Config{Importer: imp, FakeImportC: true, Error: func(e error) { errs = append(errs, e.Error()) }}
+	pkg, _ := conf.Check(files[0].Name.Name, fset, files, info)
+	if len(errs) > 0 {
+		if len(errs) > 3 {
+			errs = errs[:3]
+		}
+		return nil, fmt.Errorf("type errors in %s: %s", dir, strings.Join(errs, "; "))
+	}
+	if pkg == nil {
+		return nil, fmt.Errorf("cannot type-check %s", dir)
+	}
+	p := &sgPkg{fset: fset, files: files, pkg: pkg, info: info,
+		decls: map[*types.Func]*ast.FuncDecl{}, defs: map[types.Object][]sgDef{}, calleeIdents: map[*ast.Ident]bool{}}
+	for _, f := range files {
+		for _, d := range f.Decls {
+			if fd, ok := d.(*ast.FuncDecl); ok && fd.Body != nil {
+				if fn, ok := info.Defs[fd.Name].(*types.Func); ok {
+					p.decls[fn] = fd
+				}
+			}
+		}
+		p.collectDefs(f)
+	}
+	return p, nil
+}
+
+// sgDef is one explicit definition of a local variable (flow-insensitive).
+type sgDef struct {
+	kind string // "assign", "rangeKey", "rangeVal", "opaque"
+	expr ast.Expr
+	idx  int // position among the left-hand sides
+	n    int // number of left-hand sides
+	nrhs int
+	rng  *ast.RangeStmt
+}
+
+func (p *sgPkg) objOf(id *ast.Ident) types.Object {
+	if o := p.info.Defs[id]; o != nil {
+		return o
+	}
+	return p.info.Uses[id]
+}
+
+func sgUnparen(e ast.Expr) ast.Expr {
 	for {
-		switch x := t.(type) {
-		case *ast.StarExpr:
-			t = x.X
-		case *ast.ParenExpr:
-			t = x.X
-		case *ast.IndexExpr:
-			t = x.X
-		case *ast.IndexListExpr:
-			t = x.X
-		case *ast.Ident:
-			return x.Name
-		default:
-			return "?"
+		pe, ok := e.(*ast.ParenExpr)
+		if !ok {
+			return e
+		}
+		e = pe.X
+	}
+}
+
+func (p *sgPkg) collectDefs(f *ast.File) {
+	add := func(lhs ast.Expr, d sgDef) {
+		id, ok := sgUnparen(lhs).(*ast.Ident)
+		if !ok || id.Name == "_" {
+			return
+		}
+		if o := p.objOf(id); o != nil {
+			p.defs[o] = append(p.defs[o], d)
 		}
 	}
+	ast.Inspect(f, func(n ast.Node) bool {
+		switch x := n.(type) {
+		case *ast.AssignStmt:
+			for i, l := range x.Lhs {
+				if x.Tok != token.ASSIGN && x.Tok != token.DEFINE {
+					add(l, sgDef{kind: "opaque"})
+					continue
+				}
+				var e ast.Expr
+				if len(x.Rhs) == len(x.Lhs) {
+					e = x.Rhs[i]
+				} else {
+					e = x.Rhs[0]
+				}
+				add(l, sgDef{kind: "assign", expr: e, idx: i, n: len(x.Lhs), nrhs: len(x.Rhs)})
+			}
+		case *ast.IncDecStmt:
+			add(x.X, sgDef{kind: "opaque"})
+		case *ast.ValueSpec:
+			for i, id := range x.Names {
+				if len(x.Values) == 0 {
+					continue
+				}
+				var e ast.Expr
+				if len(x.Values) == len(x.Names) {
+					e = x.Values[i]
+				} else {
+					e = x.Values[0]
+				}
+				add(id, sgDef{kind: "assign", expr: e, idx: i, n: len(x.Names), nrhs: len(x.Values)})
+			}
+		case *ast.RangeStmt:
+			if x.Key != nil {
+				add(x.Key, sgDef{kind: "rangeKey", rng: x})
+			}
+			if x.Value != nil {
+				add(x.Value, sgDef{kind: "rangeVal", rng: x})
+			}
+		case *ast.UnaryExpr:
+			if x.Op == token.AND {
+				// the variable may be written through the pointer
+				add(x.X, sgDef{kind: "opaque"})
+			}
+		case *ast.CallExpr:
+			if id, ok := sgUnparen(x.Fun).(*ast.Ident); ok {
+				p.calleeIdents[id] = true
+			}
+		}
+		return true
+	})
 }
 
-type skelWalker struct {
-	fset    *token.FileSet
-	tracked map[string]bool
-	results []map[string]bool // named results, innermost last
-	toks    []string
-	err     error
+// ---------------------------------------------------------------------------------------
+// graph
+
+type sgEdge struct {
+	lbl string // Lean term of the label; "" is an ε-edge
+	to  int
 }
 
-func (w *skelWalker) fail(n ast.Node, format string, a ...any) {
-	if w.err == nil {
-		w.err = fmt.Errorf("%s: %s", w.fset.Position(n.Pos()), fmt.Sprintf(format, a...))
+type sgGraph struct {
+	out [][]sgEdge
+}
+
+func (g *sgGraph) node() int {
+	g.out = append(g.out, nil)
+	return len(g.out) - 1
+}
+
+// ---------------------------------------------------------------------------------------
+// translator
+
+type sgFrame struct {
+	fn       *types.Func  // nil for a literal
+	lit      *ast.FuncLit // nil for a declared function
+	ftype    *ast.FuncType
+	sig      *types.Signature
+	env      map[types.Object]string
+	lex      *sgFrame // lexically enclosing frame (literals)
+	retTo    int      // value context: where `return` goes
+	condMode bool     // the single boolean result is compiled against retT / retF
+	retT     int
+	retF     int
+}
+
+type sgJump struct {
+	kind     string // "loop", "switch", "select"
+	brk, cnt int
+}
+
+type sgTr struct {
+	p         *sgPkg
+	g         *sgGraph
+	cur       int
+	frames    []*sgFrame
+	jumps     []sgJump
+	visiting  map[types.Object]bool
+	descDepth int
+	emitted   int // number of labelled edges and inlinings so far (for probes)
+	err       error
+}
+
+func (t *sgTr) fail(n ast.Node, format string, a ...any) {
+	if t.err == nil {
+		t.err = fmt.Errorf("%s: %s", t.p.fset.Position(n.Pos()), fmt.Sprintf(format, a...))
 	}
 }
 
@@ -178,404 +441,1776 @@ func leanStr(s string) string {
 	return b.String()
 }
 
-func (w *skelWalker) text(n ast.Node) string {
-	if n == nil {
-		return ""
-	}
-	var buf bytes.Buffer
-	if err := printer.Fprint(&buf, w.fset, n); err != nil {
-		w.fail(n, "cannot print: %v", err)
-	}
-	return strings.Join(strings.Fields(buf.String()), " ")
-}
-
-func (w *skelWalker) emit(ctor string, args ...string) {
-	t := "." + ctor
+// emit adds a labelled edge from the current node to a fresh node and moves there.
+func (t *sgTr) emit(ctor string, args ...string) {
+	l := "." + ctor
 	for _, a := range args {
-		t += " " + a
+		l += " " + a
 	}
-	w.toks = append(w.toks, t)
+	n := t.g.node()
+	t.g.out[t.cur] = append(t.g.out[t.cur], sgEdge{l, n})
+	t.cur = n
+	t.emitted++
 }
 
-func (w *skelWalker) isResult(name string) bool {
-	for _, m := range w.results {
-		if m[name] {
+func (t *sgTr) edge(from int, lbl string, to int) {
+	t.g.out[from] = append(t.g.out[from], sgEdge{lbl, to})
+	if lbl != "" {
+		t.emitted++
+	}
+}
+
+// jump ends the current path with an ε-edge to target; what follows is unreachable.
+func (t *sgTr) jump(target int) {
+	t.edge(t.cur, "", target)
+	t.cur = t.g.node()
+}
+
+func (t *sgTr) frame() *sgFrame { return t.frames[len(t.frames)-1] }
+
+// probe runs f on a scratch copy and reports whether it produced any event or inlining.
+func (t *sgTr) probe(f func()) bool {
+	saveOut := make([][]sgEdge, len(t.g.out))
+	for i, es := range t.g.out {
+		saveOut[i] = append([]sgEdge(nil), es...)
+	}
+	saveCur, saveEmitted := t.cur, t.emitted
+	saveJumps := append([]sgJump(nil), t.jumps...)
+	saveFrames := append([]*sgFrame(nil), t.frames...)
+	f()
+	did := t.emitted != saveEmitted
+	t.g.out, t.cur, t.emitted, t.jumps, t.frames = saveOut, saveCur, saveEmitted, saveJumps, saveFrames
+	return did
+}
+
+// ----- descriptions (name-free, flow-insensitive) ---------------------------------------
+
+func (t *sgTr) typeStr(ty types.Type) string {
+	return types.TypeString(ty, func(p *types.Package) string {
+		if p == t.p.pkg {
+			return ""
+		}
+		return p.Name()
+	})
+}
+
+func (t *sgTr) lookupEnv(fr *sgFrame, o types.Object) (string, bool) {
+	for f := fr; f != nil; f = f.lex {
+		if s, ok := f.env[o]; ok {
+			return s, true
+		}
+	}
+	return "", false
+}
+
+func (t *sgTr) descVar(v *types.Var, fr *sgFrame) string {
+	opaque := "var<" + t.typeStr(v.Type()) + ">"
+	if v.Pkg() != nil && v.Parent() == v.Pkg().Scope() {
+		if v.Pkg() == t.p.pkg {
+			return v.Name()
+		}
+		return v.Pkg().Name() + "." + v.Name()
+	}
+	if t.visiting[v] {
+		return opaque
+	}
+	t.visiting[v] = true
+	defer delete(t.visiting, v)
+	var cands []string
+	if s, ok := t.lookupEnv(fr, v); ok {
+		cands = append(cands, s)
+	}
+	for _, d := range t.p.defs[v] {
+		cands = append(cands, t.descDef(d, v, fr))
+	}
+	if len(cands) == 0 {
+		return "zero<" + t.typeStr(v.Type()) + ">"
+	}
+	for _, c := range cands[1:] {
+		if c != cands[0] {
+			return opaque
+		}
+	}
+	return cands[0]
+}
+
+// sgIterSource recognises slices.Backward / slices.All / slices.Values and returns the
+// slice and the direction.
+func (t *sgTr) iterSource(x ast.Expr) (src ast.Expr, dir string, ok bool) {
+	c, isCall := sgUnparen(x).(*ast.CallExpr)
+	if !isCall || len(c.Args) != 1 {
+		return nil, "", false
+	}
+	f := t.staticCallee(c)
+	if f == nil || f.Pkg() == nil || f.Pkg().Path() != "slices" {
+		return nil, "", false
+	}
+	switch f.Name() {
+	case "Backward":
+		return c.Args[0], "backward", true
+	case "All", "Values":
+		return c.Args[0], "forward", true
+	}
+	return nil, "", false
+}
+
+func (t *sgTr) descDef(d sgDef, v *types.Var, fr *sgFrame) string {
+	switch d.kind {
+	case "opaque":
+		return "var<" + t.typeStr(v.Type()) + ">#"
+	case "rangeKey", "rangeVal":
+		x := d.rng.X
+		if s, _, ok := t.iterSource(x); ok {
+			x = s
+		}
+		xs := t.desc(x, fr)
+		if tv, ok := t.p.info.Types[d.rng.X]; ok {
+			if _, isChan := tv.Type.Underlying().(*types.Chan); isChan {
+				return "<-" + xs
+			}
+		}
+		if d.kind == "rangeKey" {
+			return "idx(" + xs + ")"
+		}
+		return "elem(" + xs + ")"
+	}
+	e := sgUnparen(d.expr)
+	if d.n == d.nrhs {
+		return t.desc(e, fr)
+	}
+	// tuple assignment from one expression
+	switch x := e.(type) {
+	case *ast.UnaryExpr:
+		if x.Op == token.ARROW {
+			if d.idx == 0 {
+				return "<-" + t.desc(x.X, fr)
+			}
+			return "ok(<-" + t.desc(x.X, fr) + ")"
+		}
+	case *ast.TypeAssertExpr, *ast.IndexExpr:
+		if d.idx == 0 {
+			return t.desc(e, fr)
+		}
+		return "ok(" + t.desc(e, fr) + ")"
+	case *ast.CallExpr:
+		return t.descCall(x, fr, d.idx)
+	}
+	return "var<" + t.typeStr(v.Type()) + ">"
+}
+
+// fieldDesc describes a struct field: channel- and sync-typed fields by their type when
+// that is unambiguous inside the struct, all other fields by name.
+func (t *sgTr) fieldDesc(sel *types.Selection) string {
+	f, ok := sel.Obj().(*types.Var)
+	if !ok {
+		return sel.Obj().Name()
+	}
+	if !sgSyncType(f.Type()) {
+		return f.Name()
+	}
+	ts := t.typeStr(f.Type())
+	rt := sel.Recv()
+	if p, ok := rt.Underlying().(*types.Pointer); ok {
+		rt = p.Elem()
+	}
+	st, ok := rt.Underlying().(*types.Struct)
+	if !ok || len(sel.Index()) != 1 {
+		return "<" + ts + ">#" + f.Name()
+	}
+	same := 0
+	for i := 0; i < st.NumFields(); i++ {
+		if types.Identical(st.Field(i).Type(), f.Type()) {
+			same++
+		}
+	}
+	if same == 1 {
+		return "<" + ts + ">"
+	}
+	return "<" + ts + ">#" + f.Name()
+}
+
+func sgSyncType(ty types.Type) bool {
+	if p, ok := ty.Underlying().(*types.Pointer); ok {
+		ty = p.Elem()
+	}
+	if _, ok := ty.Underlying().(*types.Chan); ok {
+		return true
+	}
+	var obj *types.TypeName
+	switch n := types.Unalias(ty).(type) {
+	case *types.Named:
+		obj = n.Obj()
+	}
+	if obj != nil && obj.Pkg() != nil {
+		switch obj.Pkg().Path() {
+		case "sync", "sync/atomic":
 			return true
 		}
 	}
 	return false
 }
 
-func resultNames(ft *ast.FuncType) map[string]bool {
-	m := map[string]bool{}
-	if ft.Results != nil {
-		for _, f := range ft.Results.List {
-			for _, n := range f.Names {
-				if n.Name != "_" {
-					m[n.Name] = true
+func (t *sgTr) desc(e ast.Expr, fr *sgFrame) string {
+	switch x := e.(type) {
+	case nil:
+		return ""
+	case *ast.ParenExpr:
+		return t.desc(x.X, fr)
+	case *ast.BasicLit:
+		return x.Value
+	case *ast.Ident:
+		switch o := t.p.objOf(x).(type) {
+		case *types.Var:
+			return t.descVar(o, fr)
+		case *types.Const:
+			if o.Pkg() != nil && o.Pkg() != t.p.pkg {
+				return o.Pkg().Name() + "." + o.Name()
+			}
+			return o.Name()
+		case *types.Func:
+			_, s := sgFuncLabel(o)
+			return s
+		case *types.TypeName:
+			return t.typeStr(o.Type())
+		case *types.Nil:
+			return "nil"
+		}
+		return x.Name
+	case *ast.SelectorExpr:
+		if sel, ok := t.p.info.Selections[x]; ok {
+			if sel.Kind() == types.FieldVal {
+				return t.desc(x.X, fr) + "." + t.fieldDesc(sel)
+			}
+			return t.desc(x.X, fr) + "." + x.Sel.Name
+		}
+		// qualified identifier
+		if o := t.p.info.Uses[x.Sel]; o != nil && o.Pkg() != nil {
+			return o.Pkg().Name() + "." + o.Name()
+		}
+		return x.Sel.Name
+	case *ast.StarExpr:
+		return "*" + t.desc(x.X, fr)
+	case *ast.UnaryExpr:
+		return x.Op.String() + t.desc(x.X, fr)
+	case *ast.BinaryExpr:
+		op := func(e ast.Expr) string {
+			if _, nested := sgUnparen(e).(*ast.BinaryExpr); nested {
+				return "(" + t.desc(e, fr) + ")"
+			}
+			return t.desc(e, fr)
+		}
+		return op(x.X) + " " + x.Op.String() + " " + op(x.Y)
+	case *ast.IndexExpr:
+		if tv, ok := t.p.info.Types[x.Index]; ok && tv.IsType() {
+			return t.desc(x.X, fr)
+		}
+		return t.desc(x.X, fr) + "[" + t.desc(x.Index, fr) + "]"
+	case *ast.IndexListExpr:
+		return t.desc(x.X, fr)
+	case *ast.SliceExpr:
+		return t.desc(x.X, fr) + "[" + t.desc(x.Low, fr) + ":" + t.desc(x.High, fr) + "]"
+	case *ast.TypeAssertExpr:
+		if x.Type == nil {
+			return t.desc(x.X, fr) + ".(type)"
+		}
+		return t.desc(x.X, fr) + ".(" + t.typeStr(t.p.info.Types[x.Type].Type) + ")"
+	case *ast.CallExpr:
+		return t.descCall(x, fr, -1)
+	case *ast.FuncLit:
+		return "func"
+	case *ast.CompositeLit:
+		if tv, ok := t.p.info.Types[x]; ok {
+			return "lit<" + t.typeStr(tv.Type) + ">"
+		}
+		return "lit"
+	}
+	if tv, ok := t.p.info.Types[e]; ok && tv.Type != nil {
+		return "expr<" + t.typeStr(tv.Type) + ">"
+	}
+	return "expr"
+}
+
+// descCall describes the value of a call: calls of dynamic / external callees by the callee's
+// label (arguments are not part of the description); a same-package callee with exactly one
+// return statement by the returned expression; anything else by its type.
+func (t *sgTr) descCall(c *ast.CallExpr, fr *sgFrame, idx int) string {
+	suffix := ""
+	if idx >= 0 {
+		suffix = fmt.Sprintf(".%d", idx)
+	}
+	if tv, ok := t.p.info.Types[c.Fun]; ok && tv.IsType() {
+		if len(c.Args) == 1 {
+			return t.typeStr(tv.Type) + "(" + t.desc(c.Args[0], fr) + ")"
+		}
+	}
+	fun := sgUnparen(c.Fun)
+	if ix, ok := fun.(*ast.IndexExpr); ok {
+		fun = sgUnparen(ix.X)
+	} else if ix, ok := fun.(*ast.IndexListExpr); ok {
+		fun = sgUnparen(ix.X)
+	}
+	if id, ok := fun.(*ast.Ident); ok {
+		if b, ok := t.p.info.Uses[id].(*types.Builtin); ok {
+			var as []string
+			for _, a := range c.Args {
+				if tv, ok := t.p.info.Types[a]; ok && tv.IsType() {
+					as = append(as, t.typeStr(tv.Type))
+				} else {
+					as = append(as, t.desc(a, fr))
 				}
+			}
+			return b.Name() + "(" + strings.Join(as, ", ") + ")"
+		}
+	}
+	if f := t.staticCallee(c); f != nil {
+		if fd := t.p.decls[f]; fd != nil {
+			// same package: look through a single return
+			var rets []*ast.ReturnStmt
+			ast.Inspect(fd.Body, func(n ast.Node) bool {
+				switch r := n.(type) {
+				case *ast.FuncLit:
+					return false
+				case *ast.ReturnStmt:
+					rets = append(rets, r)
+				}
+				return true
+			})
+			want := idx
+			if want < 0 {
+				want = 0
+			}
+			if len(rets) == 1 && len(rets[0].Results) > want && t.descDepth < 30 {
+				t.descDepth++
+				defer func() { t.descDepth-- }()
+				sub := &sgFrame{fn: f, ftype: fd.Type, env: t.bindEnv(fd, c, fr)}
+				if len(rets[0].Results) == 1 && idx >= 0 {
+					if inner, ok := sgUnparen(rets[0].Results[0]).(*ast.CallExpr); ok {
+						return t.descCall(inner, sub, idx)
+					}
+				}
+				return t.desc(rets[0].Results[want], sub)
+			}
+			tv := t.p.info.Types[c]
+			return "result<" + t.typeStr(tv.Type) + ">" + suffix
+		}
+		_, s := sgFuncLabel(f)
+		return s + "()" + suffix
+	}
+	// dynamic
+	if sel, ok := fun.(*ast.SelectorExpr); ok {
+		if s, ok := t.p.info.Selections[sel]; ok && s.Kind() == types.MethodVal {
+			return sel.Sel.Name + "()" + suffix
+		}
+	}
+	return t.desc(fun, fr) + "()" + suffix
+}
+
+func (t *sgTr) onStack(f *types.Func) bool {
+	for _, fr := range t.frames {
+		if fr.fn == f {
+			return true
+		}
+	}
+	return false
+}
+
+// bindEnv maps the parameters (and the receiver) of fd to descriptions of the actual
+// arguments of call c, evaluated in frame fr.
+func (t *sgTr) bindEnv(fd *ast.FuncDecl, c *ast.CallExpr, fr *sgFrame) map[types.Object]string {
+	env := map[types.Object]string{}
+	if fd.Recv != nil && len(fd.Recv.List) == 1 && len(fd.Recv.List[0].Names) == 1 {
+		if sel, ok := sgUnparen(c.Fun).(*ast.SelectorExpr); ok {
+			if o := t.p.info.Defs[fd.Recv.List[0].Names[0]]; o != nil {
+				env[o] = t.desc(sel.X, fr)
 			}
 		}
 	}
-	return m
+	t.bindParams(env, fd.Type, c, fr)
+	return env
 }
 
-func calleeName(fun ast.Expr) string {
+func (t *sgTr) bindParams(env map[types.Object]string, ft *ast.FuncType, c *ast.CallExpr, fr *sgFrame) {
+	i := 0
+	if ft.Params == nil {
+		return
+	}
+	for _, f := range ft.Params.List {
+		_, variadic := f.Type.(*ast.Ellipsis)
+		for _, n := range f.Names {
+			if o := t.p.info.Defs[n]; o != nil && n.Name != "_" {
+				switch {
+				case variadic && !c.Ellipsis.IsValid():
+					env[o] = "variadic"
+				case i < len(c.Args):
+					env[o] = t.desc(c.Args[i], fr)
+				}
+			}
+			i++
+		}
+	}
+}
+
+// ----- callee resolution --------------------------------------------------------------
+
+// staticCallee returns the statically known function called by c (a declared function or a
+// method of a concrete type), or nil for builtins, conversions, interface methods and
+// function values.
+func (t *sgTr) staticCallee(c *ast.CallExpr) *types.Func {
+	fun := sgUnparen(c.Fun)
+	if ix, ok := fun.(*ast.IndexExpr); ok {
+		fun = sgUnparen(ix.X)
+	} else if ix, ok := fun.(*ast.IndexListExpr); ok {
+		fun = sgUnparen(ix.X)
+	}
 	switch f := fun.(type) {
 	case *ast.Ident:
-		return f.Name
+		if fn, ok := t.p.info.Uses[f].(*types.Func); ok {
+			return fn.Origin()
+		}
 	case *ast.SelectorExpr:
-		return f.Sel.Name
-	case *ast.ParenExpr:
-		return calleeName(f.X)
-	case *ast.IndexExpr:
-		return calleeName(f.X)
-	case *ast.IndexListExpr:
-		return calleeName(f.X)
-	case *ast.FuncLit:
-		return "func"
+		if sel, ok := t.p.info.Selections[f]; ok {
+			if sel.Kind() != types.MethodVal {
+				return nil
+			}
+			if types.IsInterface(sel.Recv()) {
+				return nil
+			}
+			if _, isTP := types.Unalias(sel.Recv()).(*types.TypeParam); isTP {
+				return nil
+			}
+			if fn, ok := sel.Obj().(*types.Func); ok {
+				return fn.Origin()
+			}
+			return nil
+		}
+		if fn, ok := t.p.info.Uses[f.Sel].(*types.Func); ok {
+			return fn.Origin()
+		}
 	}
-	return "?"
+	return nil
 }
 
-func (w *skelWalker) funcBody(open string, fl *ast.FuncLit) {
-	w.emit(open)
-	w.results = append(w.results, resultNames(fl.Type))
-	w.block(fl.Body)
-	w.results = w.results[:len(w.results)-1]
-	w.emit("endFunc")
+// localLit returns the function literal a local variable is bound to, if the variable has
+// exactly one definition, a literal, and is only ever used in callee position.
+func (t *sgTr) localLit(id *ast.Ident) *ast.FuncLit {
+	v, ok := t.p.info.Uses[id].(*types.Var)
+	if !ok {
+		return nil
+	}
+	ds := t.p.defs[v]
+	if len(ds) != 1 || ds[0].kind != "assign" || ds[0].n != ds[0].nrhs {
+		return nil
+	}
+	lit, ok := sgUnparen(ds[0].expr).(*ast.FuncLit)
+	if !ok {
+		return nil
+	}
+	for use, o := range t.p.info.Uses {
+		if o == v && !t.p.calleeIdents[use] {
+			return nil
+		}
+	}
+	return lit
 }
 
-// call emits the events of one call expression; the caller decides what token stands for
-// the call itself (call / goCall / deferCall).
-func (w *skelWalker) callOperands(c *ast.CallExpr) {
-	switch f := c.Fun.(type) {
+func sgHasDeferOrRecover(p *sgPkg, body *ast.BlockStmt) bool {
+	found := false
+	ast.Inspect(body, func(n ast.Node) bool {
+		switch x := n.(type) {
+		case *ast.FuncLit:
+			return false
+		case *ast.DeferStmt:
+			found = true
+		case *ast.CallExpr:
+			if id, ok := sgUnparen(x.Fun).(*ast.Ident); ok {
+				if b, ok := p.info.Uses[id].(*types.Builtin); ok && b.Name() == "recover" {
+					found = true
+				}
+			}
+		}
+		return !found
+	})
+	return found
+}
+
+// ----- inlining ------------------------------------------------------------------------
+
+// inlineBody translates body as a new frame.  open is the label that opens the bracket
+// ("" = bracket only if the body registers a defer or calls recover: `frame`).  In value
+// mode the current node afterwards is the point after the call; in cond mode every
+// `return e` is compiled against condT / condF and the current node is unreachable.
+func (t *sgTr) inlineBody(at ast.Node, fr *sgFrame, body *ast.BlockStmt, open string, cond bool, condT, condF int) {
+	if len(t.frames) > 40 {
+		t.fail(at, "inlining deeper than 40 frames")
+		return
+	}
+	if fr.fn != nil && t.onStack(fr.fn) {
+		t.fail(at, "recursive call of %s cannot be inlined", fr.fn.Name())
+		return
+	}
+	t.emitted++ // an inlining counts for probes
+	if open == "" && sgHasDeferOrRecover(t.p, body) {
+		open = "frame"
+	}
+	if open != "" {
+		t.emit(open)
+	}
+	after := -1
+	if cond {
+		fr.condMode = true
+		fr.retT, fr.retF = condT, condF
+		if open != "" {
+			fr.retT, fr.retF = t.g.node(), t.g.node()
+			t.edge(fr.retT, ".endFunc", condT)
+			t.edge(fr.retF, ".endFunc", condF)
+		}
+		fr.retTo = -1
+	} else {
+		after = t.g.node()
+		fr.retTo = after
+		if open != "" {
+			fr.retTo = t.g.node()
+			t.edge(fr.retTo, ".endFunc", after)
+		}
+	}
+	saveJumps := t.jumps
+	t.jumps = nil
+	t.frames = append(t.frames, fr)
+	t.block(body)
+	if cond {
+		// falling off the end of a function with a result is impossible
+		t.cur = t.g.node()
+	} else {
+		t.jump(fr.retTo)
+		t.cur = after
+	}
+	t.frames = t.frames[:len(t.frames)-1]
+	t.jumps = saveJumps
+}
+
+func (t *sgTr) sigOf(e ast.Expr) *types.Signature {
+	if tv, ok := t.p.info.Types[e]; ok && tv.Type != nil {
+		if s, ok := tv.Type.Underlying().(*types.Signature); ok {
+			return s
+		}
+	}
+	return nil
+}
+
+func sgSingleBool(s *types.Signature) bool {
+	if s == nil || s.Results().Len() != 1 {
+		return false
+	}
+	b, ok := s.Results().At(0).Type().Underlying().(*types.Basic)
+	return ok && b.Kind() == types.Bool
+}
+
+// callOperands emits the events of the receiver / function operand and of the arguments.
+func (t *sgTr) callOperands(c *ast.CallExpr) {
+	fun := sgUnparen(c.Fun)
+	if ix, ok := fun.(*ast.IndexExpr); ok {
+		fun = sgUnparen(ix.X)
+	} else if ix, ok := fun.(*ast.IndexListExpr); ok {
+		fun = sgUnparen(ix.X)
+	}
+	switch f := fun.(type) {
 	case *ast.SelectorExpr:
-		w.expr(f.X)
-	case *ast.FuncLit, *ast.Ident:
+		if _, ok := t.p.info.Selections[f]; ok {
+			t.expr(f.X)
+		}
+	case *ast.Ident, *ast.FuncLit:
 	default:
-		w.expr(c.Fun)
+		t.expr(fun)
 	}
 	for _, a := range c.Args {
-		w.expr(a)
+		t.expr(a)
 	}
 }
 
-func isChanType(e ast.Expr) bool {
-	_, ok := e.(*ast.ChanType)
-	return ok
+// callKind classifies a call.
+type sgCall struct {
+	kind  string // "conv", "builtin", "inline", "inlineLit", "event", "pure"
+	name  string // builtin name / event label
+	decl  *ast.FuncDecl
+	fn    *types.Func
+	lit   *ast.FuncLit
+	local bool // lit reached through a local variable
 }
 
-func (w *skelWalker) expr(e ast.Expr) {
-	if e == nil || w.err != nil {
+func (t *sgTr) classify(c *ast.CallExpr) sgCall {
+	if tv, ok := t.p.info.Types[c.Fun]; ok && tv.IsType() {
+		return sgCall{kind: "conv"}
+	}
+	fun := sgUnparen(c.Fun)
+	if ix, ok := fun.(*ast.IndexExpr); ok {
+		fun = sgUnparen(ix.X)
+	} else if ix, ok := fun.(*ast.IndexListExpr); ok {
+		fun = sgUnparen(ix.X)
+	}
+	if lit, ok := fun.(*ast.FuncLit); ok {
+		return sgCall{kind: "inlineLit", lit: lit}
+	}
+	if id, ok := fun.(*ast.Ident); ok {
+		if b, ok := t.p.info.Uses[id].(*types.Builtin); ok {
+			return sgCall{kind: "builtin", name: b.Name()}
+		}
+		if lit := t.localLit(id); lit != nil {
+			return sgCall{kind: "inlineLit", lit: lit, local: true}
+		}
+	}
+	if f := t.staticCallee(c); f != nil {
+		if f.Pkg() == t.p.pkg {
+			if fd := t.p.decls[f]; fd != nil {
+				return sgCall{kind: "inline", decl: fd, fn: f}
+			}
+			// declared without a body (assembly, linkname): show it
+			return sgCall{kind: "event", name: f.Name()}
+		}
+		if sgClassify(f) {
+			_, s := sgFuncLabel(f)
+			return sgCall{kind: "event", name: s}
+		}
+		return sgCall{kind: "pure"}
+	}
+	// dynamic: interface method or function value
+	if sel, ok := fun.(*ast.SelectorExpr); ok {
+		if s, ok := t.p.info.Selections[sel]; ok && s.Kind() == types.MethodVal {
+			return sgCall{kind: "event", name: sel.Sel.Name}
+		}
+	}
+	return sgCall{kind: "event", name: t.desc(fun, t.frame())}
+}
+
+func (t *sgTr) litFrame(lit *ast.FuncLit, c *ast.CallExpr) *sgFrame {
+	fr := &sgFrame{lit: lit, ftype: lit.Type, sig: t.sigOf(lit), env: map[types.Object]string{}, lex: t.frame()}
+	if c != nil {
+		t.bindParams(fr.env, lit.Type, c, t.frame())
+	}
+	return fr
+}
+
+func (t *sgTr) declFrame(k sgCall, c *ast.CallExpr) *sgFrame {
+	sig, _ := k.fn.Type().(*types.Signature)
+	return &sgFrame{fn: k.fn, ftype: k.decl.Type, sig: sig, env: t.bindEnv(k.decl, c, t.frame())}
+}
+
+// call translates a call in value context.
+func (t *sgTr) call(c *ast.CallExpr) {
+	k := t.classify(c)
+	switch k.kind {
+	case "conv", "pure":
+		t.callOperands(c)
+	case "builtin":
+		switch k.name {
+		case "close":
+			t.callOperands(c)
+			if len(c.Args) == 1 {
+				t.emit("close", leanStr(t.desc(c.Args[0], t.frame())))
+			}
+		case "panic":
+			t.callOperands(c)
+			t.emit("panic")
+			t.cur = t.g.node() // what follows is unreachable; the panic node is terminal
+		case "recover":
+			t.emit("recover")
+		case "make":
+			if len(c.Args) >= 1 {
+				if tv, ok := t.p.info.Types[c.Args[0]]; ok {
+					if _, isChan := tv.Type.Underlying().(*types.Chan); isChan {
+						capText := ""
+						if len(c.Args) >= 2 {
+							t.expr(c.Args[1])
+							capText = t.desc(c.Args[1], t.frame())
+						}
+						t.emit("makeChan", leanStr(capText))
+						return
+					}
+				}
+			}
+			if len(c.Args) > 1 {
+				for _, a := range c.Args[1:] {
+					t.expr(a)
+				}
+			}
+		case "new":
+		default:
+			for _, a := range c.Args {
+				if tv, ok := t.p.info.Types[a]; ok && tv.IsType() {
+					continue
+				}
+				t.expr(a)
+			}
+		}
+	case "inline":
+		t.callOperands(c)
+		t.inlineBody(c, t.declFrame(k, c), k.decl.Body, "", false, 0, 0)
+	case "inlineLit":
+		t.callOperands(c)
+		t.inlineBody(c, t.litFrame(k.lit, c), k.lit.Body, "", false, 0, 0)
+	case "event":
+		t.callOperands(c)
+		t.emit("call", leanStr(k.name))
+	}
+}
+
+// spawn translates the call of a go / defer statement.
+func (t *sgTr) spawn(c *ast.CallExpr, openFunc, named string) {
+	k := t.classify(c)
+	t.callOperands(c)
+	switch k.kind {
+	case "inline":
+		t.inlineBody(c, t.declFrame(k, c), k.decl.Body, openFunc, false, 0, 0)
+	case "inlineLit":
+		t.inlineBody(c, t.litFrame(k.lit, c), k.lit.Body, openFunc, false, 0, 0)
+	case "event":
+		t.emit(named, leanStr(k.name))
+	case "builtin":
+		switch k.name {
+		case "close":
+			if len(c.Args) == 1 {
+				t.emit(named, leanStr("close "+t.desc(c.Args[0], t.frame())))
+			}
+		case "panic", "recover":
+			t.emit(named, leanStr(k.name))
+		}
+	case "pure", "conv":
+		// deferring a pure call registers nothing the model talks about
+	}
+}
+
+// ----- expressions ---------------------------------------------------------------------
+
+func (t *sgTr) expr(e ast.Expr) {
+	if e == nil || t.err != nil {
 		return
 	}
 	switch x := e.(type) {
-	case *ast.Ident, *ast.BasicLit:
+	case *ast.BasicLit:
+	case *ast.Ident:
+		t.funcValue(x, x)
 	case *ast.ParenExpr:
-		w.expr(x.X)
+		t.expr(x.X)
 	case *ast.SelectorExpr:
-		w.expr(x.X)
+		if sel, ok := t.p.info.Selections[x]; ok {
+			t.expr(x.X)
+			if sel.Kind() == types.MethodVal {
+				t.funcValue(x, x.Sel)
+			}
+		} else {
+			t.funcValue(x, x.Sel)
+		}
 	case *ast.StarExpr:
-		w.expr(x.X)
+		t.expr(x.X)
 	case *ast.UnaryExpr:
-		w.expr(x.X)
+		t.expr(x.X)
 		if x.Op == token.ARROW {
-			w.emit("recv", leanStr(w.text(x.X)))
+			t.emit("recv", leanStr(t.desc(x.X, t.frame())))
 		}
 	case *ast.BinaryExpr:
-		w.expr(x.X)
-		w.expr(x.Y)
-	case *ast.IndexExpr:
-		w.expr(x.X)
-		w.expr(x.Index)
-	case *ast.IndexListExpr:
-		w.expr(x.X)
-	case *ast.SliceExpr:
-		w.expr(x.X)
-		w.expr(x.Low)
-		w.expr(x.High)
-		w.expr(x.Max)
-	case *ast.TypeAssertExpr:
-		w.expr(x.X)
-	case *ast.KeyValueExpr:
-		w.expr(x.Key)
-		w.expr(x.Value)
-	case *ast.CompositeLit:
-		for _, el := range x.Elts {
-			w.expr(el)
-		}
-	case *ast.FuncLit:
-		w.funcBody("funcLit", x)
-	case *ast.ArrayType, *ast.MapType, *ast.ChanType, *ast.FuncType, *ast.InterfaceType, *ast.StructType, *ast.Ellipsis:
-	case *ast.CallExpr:
-		if id, ok := x.Fun.(*ast.Ident); ok {
-			switch id.Name {
-			case "close":
-				if len(x.Args) == 1 {
-					w.expr(x.Args[0])
-					w.emit("close", leanStr(w.text(x.Args[0])))
-					return
-				}
-			case "panic":
-				w.callOperands(x)
-				w.emit("panic")
+		if x.Op == token.LAND || x.Op == token.LOR {
+			if t.probe(func() { t.expr(x.Y) }) {
+				// the right operand is evaluated conditionally
+				j := t.g.node()
+				t.cond(x, j, j)
+				t.cur = j
 				return
-			case "recover":
-				w.emit("recover")
-				return
-			case "make":
-				if len(x.Args) >= 1 && isChanType(x.Args[0]) {
-					capText := ""
-					if len(x.Args) >= 2 {
-						w.expr(x.Args[1])
-						capText = w.text(x.Args[1])
-					}
-					w.emit("makeChan", leanStr(capText))
-					return
-				}
 			}
 		}
-		w.callOperands(x)
-		if fl, ok := x.Fun.(*ast.FuncLit); ok {
-			w.funcBody("funcLit", fl)
-			return
+		t.expr(x.X)
+		t.expr(x.Y)
+	case *ast.IndexExpr:
+		t.expr(x.X)
+		if tv, ok := t.p.info.Types[x.Index]; !ok || !tv.IsType() {
+			t.expr(x.Index)
 		}
-		if n := calleeName(x.Fun); w.tracked[n] {
-			w.emit("call", leanStr(n))
+	case *ast.IndexListExpr:
+		t.expr(x.X)
+	case *ast.SliceExpr:
+		t.expr(x.X)
+		t.expr(x.Low)
+		t.expr(x.High)
+		t.expr(x.Max)
+	case *ast.TypeAssertExpr:
+		t.expr(x.X)
+	case *ast.KeyValueExpr:
+		if _, isIdent := x.Key.(*ast.Ident); !isIdent {
+			t.expr(x.Key)
 		}
+		t.expr(x.Value)
+	case *ast.CompositeLit:
+		for _, el := range x.Elts {
+			t.expr(el)
+		}
+	case *ast.FuncLit:
+		// a literal that is used as a value: it escapes
+		t.inlineBody(x, t.litFrame(x, nil), x.Body, "funcLit", false, 0, 0)
+	case *ast.ArrayType, *ast.MapType, *ast.ChanType, *ast.FuncType, *ast.InterfaceType, *ast.StructType, *ast.Ellipsis:
+	case *ast.CallExpr:
+		t.call(x)
 	default:
-		w.fail(e, "expression kind %T is outside the skeleton translator's subset", e)
+		t.fail(e, "expression kind %T is outside the skeleton translator's subset", e)
 	}
 }
 
-func (w *skelWalker) block(b *ast.BlockStmt) {
+// funcValue: a function of this package used as a VALUE (method value, callback) escapes;
+// its body is shown like an escaping literal.
+func (t *sgTr) funcValue(at ast.Expr, id *ast.Ident) {
+	fn, ok := t.p.info.Uses[id].(*types.Func)
+	if !ok {
+		return
+	}
+	fn = fn.Origin()
+	if fn.Pkg() != t.p.pkg {
+		return
+	}
+	fd := t.p.decls[fn]
+	if fd == nil {
+		return
+	}
+	sig, _ := fn.Type().(*types.Signature)
+	fr := &sgFrame{fn: fn, ftype: fd.Type, sig: sig, env: map[types.Object]string{}}
+	if sel, ok := at.(*ast.SelectorExpr); ok && fd.Recv != nil && len(fd.Recv.List) == 1 && len(fd.Recv.List[0].Names) == 1 {
+		if o := t.p.info.Defs[fd.Recv.List[0].Names[0]]; o != nil {
+			fr.env[o] = t.desc(sel.X, t.frame())
+		}
+	}
+	t.inlineBody(at, fr, fd.Body, "funcLit", false, 0, 0)
+}
+
+// ----- conditions ----------------------------------------------------------------------
+
+// atom returns the canonical description of a residual condition and whether it is negated.
+func (t *sgTr) atom(e ast.Expr) (string, bool) {
+	fr := t.frame()
+	switch x := sgUnparen(e).(type) {
+	case *ast.UnaryExpr:
+		if x.Op == token.NOT {
+			s, n := t.atom(x.X)
+			return s, !n
+		}
+	case *ast.BinaryExpr:
+		a, b := t.desc(x.X, fr), t.desc(x.Y, fr)
+		switch x.Op {
+		case token.EQL, token.NEQ:
+			if b < a {
+				a, b = b, a
+			}
+			return a + " == " + b, x.Op == token.NEQ
+		case token.LSS:
+			return a + " < " + b, false
+		case token.GTR:
+			return b + " < " + a, false
+		case token.LEQ:
+			return b + " < " + a, true
+		case token.GEQ:
+			return a + " < " + b, true
+		}
+	}
+	return t.desc(e, fr), false
+}
+
+func sgDedup(xs []string) []string {
+	var out []string
+	for i, x := range xs {
+		if i == 0 || x != xs[i-1] {
+			out = append(out, x)
+		}
+	}
+	return out
+}
+
+// branch ends the current path with a two-way condition node.
+func (t *sgTr) branch(label string, negated bool, tgtT, tgtF int) {
+	if negated {
+		tgtT, tgtF = tgtF, tgtT
+	}
+	t.edge(t.cur, ".cond "+leanStr(label)+" true", tgtT)
+	t.edge(t.cur, ".cond "+leanStr(label)+" false", tgtF)
+	t.cur = t.g.node()
+}
+
+// cond compiles e as control flow: the current path ends in tgtT or tgtF.
+func (t *sgTr) cond(e ast.Expr, tgtT, tgtF int) {
+	if t.err != nil {
+		return
+	}
+	e = sgUnparen(e)
+	if tv, ok := t.p.info.Types[e]; ok && tv.Value != nil {
+		if tv.Value.String() == "true" {
+			t.jump(tgtT)
+		} else {
+			t.jump(tgtF)
+		}
+		return
+	}
+	switch x := e.(type) {
+	case *ast.UnaryExpr:
+		if x.Op == token.NOT {
+			t.cond(x.X, tgtF, tgtT)
+			return
+		}
+	case *ast.BinaryExpr:
+		if x.Op == token.LAND || x.Op == token.LOR {
+			mid := t.g.node()
+			if x.Op == token.LAND {
+				t.cond(x.X, mid, tgtF)
+			} else {
+				t.cond(x.X, tgtT, mid)
+			}
+			t.cur = mid
+			t.cond(x.Y, tgtT, tgtF)
+			return
+		}
+	case *ast.CallExpr:
+		k := t.classify(x)
+		if (k.kind == "inline" || k.kind == "inlineLit") && sgSingleBool(t.sigOf(x.Fun)) {
+			t.callOperands(x)
+			if k.kind == "inline" {
+				t.inlineBody(x, t.declFrame(k, x), k.decl.Body, "", true, tgtT, tgtF)
+			} else {
+				t.inlineBody(x, t.litFrame(k.lit, x), k.lit.Body, "", true, tgtT, tgtF)
+			}
+			return
+		}
+	}
+	t.expr(e)
+	s, n := t.atom(e)
+	t.branch(s, n, tgtT, tgtF)
+}
+
+// condAny: the disjunction of the case expressions of one switch clause, as a chain of
+// conditions (the normaliser merges and sorts chains of event-free conditions).
+func (t *sgTr) condAny(tag ast.Expr, tagDesc string, es []ast.Expr, tgtT, tgtF int) {
+	for i, e := range es {
+		next := tgtF
+		if i < len(es)-1 {
+			next = t.g.node()
+		}
+		if tag == nil {
+			t.cond(e, tgtT, next)
+		} else {
+			t.expr(e)
+			a, b := tagDesc, t.desc(e, t.frame())
+			if b < a {
+				a, b = b, a
+			}
+			t.branch(a+" == "+b, false, tgtT, next)
+		}
+		t.cur = next
+	}
+}
+
+// ----- statements ----------------------------------------------------------------------
+
+func (t *sgTr) block(b *ast.BlockStmt) {
 	if b == nil {
 		return
 	}
 	for _, s := range b.List {
-		w.stmt(s)
+		t.stmt(s)
 	}
 }
 
-// pruned runs body between an opening token and a closing token and drops the whole
-// structure when the body emitted nothing (separators such as elseBegin / caseExprs /
-// case heads do not count).
-func (w *skelWalker) pruned(open func(), body func(), closeTok string, separators map[string]bool) {
-	start := len(w.toks)
-	open()
-	inner := len(w.toks)
-	body()
-	has := false
-	for _, t := range w.toks[inner:] {
-		ctor := strings.TrimPrefix(strings.SplitN(t, " ", 2)[0], ".")
-		if !separators[ctor] {
-			has = true
-			break
+func (t *sgTr) findJump(kinds ...string) *sgJump {
+	for i := len(t.jumps) - 1; i >= 0; i-- {
+		for _, k := range kinds {
+			if t.jumps[i].kind == k {
+				return &t.jumps[i]
+			}
 		}
 	}
-	if !has {
-		w.toks = w.toks[:start]
-		return
-	}
-	w.emit(closeTok)
+	return nil
 }
 
-func (w *skelWalker) stmt(s ast.Stmt) {
-	if s == nil || w.err != nil {
+// sliceLoop recognises the counting loops over a slice; it returns the slice expression and
+// the direction.
+func (t *sgTr) sliceLoop(x *ast.ForStmt) (ast.Expr, string, bool) {
+	init, ok := x.Init.(*ast.AssignStmt)
+	if !ok || init.Tok != token.DEFINE || len(init.Lhs) != 1 || len(init.Rhs) != 1 {
+		return nil, "", false
+	}
+	iv, ok := init.Lhs[0].(*ast.Ident)
+	if !ok {
+		return nil, "", false
+	}
+	iobj := t.p.info.Defs[iv]
+	post, ok := x.Post.(*ast.IncDecStmt)
+	if !ok {
+		return nil, "", false
+	}
+	if pid, ok := post.X.(*ast.Ident); !ok || t.p.info.Uses[pid] != iobj {
+		return nil, "", false
+	}
+	cnd, ok := x.Cond.(*ast.BinaryExpr)
+	if !ok {
+		return nil, "", false
+	}
+	isI := func(e ast.Expr) bool {
+		id, ok := sgUnparen(e).(*ast.Ident)
+		return ok && t.p.info.Uses[id] == iobj
+	}
+	isInt := func(e ast.Expr, v string) bool {
+		l, ok := sgUnparen(e).(*ast.BasicLit)
+		return ok && l.Kind == token.INT && l.Value == v
+	}
+	lenOf := func(e ast.Expr) ast.Expr {
+		c, ok := sgUnparen(e).(*ast.CallExpr)
+		if !ok || len(c.Args) != 1 {
+			return nil
+		}
+		id, ok := c.Fun.(*ast.Ident)
+		if !ok {
+			return nil
+		}
+		if b, ok := t.p.info.Uses[id].(*types.Builtin); !ok || b.Name() != "len" {
+			return nil
+		}
+		return c.Args[0]
+	}
+	var s ast.Expr
+	dir, off := "", 0
+	switch {
+	case post.Tok == token.INC && isInt(init.Rhs[0], "0") && cnd.Op == token.LSS && isI(cnd.X) && lenOf(cnd.Y) != nil:
+		s, dir = lenOf(cnd.Y), "forward"
+	case post.Tok == token.DEC && cnd.Op == token.GEQ && isI(cnd.X) && isInt(cnd.Y, "0"):
+		// i := len(s) - 1
+		b, ok := sgUnparen(init.Rhs[0]).(*ast.BinaryExpr)
+		if !ok || b.Op != token.SUB || !isInt(b.Y, "1") || lenOf(b.X) == nil {
+			return nil, "", false
+		}
+		s, dir = lenOf(b.X), "backward"
+	case post.Tok == token.DEC && cnd.Op == token.GTR && isI(cnd.X) && isInt(cnd.Y, "0") && lenOf(init.Rhs[0]) != nil:
+		s, dir, off = lenOf(init.Rhs[0]), "backward", 1
+	default:
+		return nil, "", false
+	}
+	sd := t.desc(s, t.frame())
+	// the body must index s at the loop position and must not write i
+	indexed, written := false, false
+	ast.Inspect(x.Body, func(n ast.Node) bool {
+		switch y := n.(type) {
+		case *ast.IndexExpr:
+			if t.desc(y.X, t.frame()) == sd {
+				if off == 0 && isI(y.Index) {
+					indexed = true
+				}
+				if b, ok := sgUnparen(y.Index).(*ast.BinaryExpr); ok && off == 1 && b.Op == token.SUB && isI(b.X) && isInt(b.Y, "1") {
+					indexed = true
+				}
+			}
+		case *ast.AssignStmt:
+			for _, l := range y.Lhs {
+				if isI(l) {
+					written = true
+				}
+			}
+		case *ast.IncDecStmt:
+			if isI(y.X) {
+				written = true
+			}
+		case *ast.UnaryExpr:
+			if y.Op == token.AND && isI(y.X) {
+				written = true
+			}
+		}
+		return true
+	})
+	if !indexed || written {
+		return nil, "", false
+	}
+	return s, dir, true
+}
+
+func (t *sgTr) loop(body *ast.BlockStmt, head, exit, cont int, post ast.Stmt) {
+	t.jumps = append(t.jumps, sgJump{"loop", exit, cont})
+	t.block(body)
+	t.jumps = t.jumps[:len(t.jumps)-1]
+	t.jump(cont)
+	if cont != head {
+		t.cur = cont
+		t.stmt(post)
+		t.jump(head)
+	}
+	t.cur = exit
+}
+
+func (t *sgTr) stmt(s ast.Stmt) {
+	if s == nil || t.err != nil {
 		return
 	}
 	switch x := s.(type) {
 	case *ast.EmptyStmt:
 	case *ast.ExprStmt:
-		w.expr(x.X)
+		t.expr(x.X)
 	case *ast.IncDecStmt:
-		w.expr(x.X)
+		t.expr(x.X)
 	case *ast.DeclStmt:
 		gd, ok := x.Decl.(*ast.GenDecl)
 		if !ok {
-			w.fail(s, "unsupported declaration")
+			t.fail(s, "unsupported declaration")
 			return
 		}
 		for _, sp := range gd.Specs {
 			if vs, ok := sp.(*ast.ValueSpec); ok {
 				for _, v := range vs.Values {
-					w.expr(v)
+					t.assigned(vs.Names, v)
 				}
 			}
 		}
 	case *ast.AssignStmt:
 		for _, l := range x.Lhs {
 			if _, ok := l.(*ast.Ident); !ok {
-				w.expr(l)
+				t.expr(l)
 			}
 		}
 		for _, r := range x.Rhs {
-			w.expr(r)
-		}
-		if x.Tok != token.DEFINE {
-			for i, l := range x.Lhs {
-				id, ok := l.(*ast.Ident)
-				if !ok || !w.isResult(id.Name) {
-					continue
+			var names []*ast.Ident
+			if len(x.Lhs) == 1 && len(x.Rhs) == 1 {
+				if id, ok := x.Lhs[0].(*ast.Ident); ok {
+					names = []*ast.Ident{id}
 				}
-				rhs := ""
-				if len(x.Rhs) == len(x.Lhs) {
-					rhs = w.text(x.Rhs[i])
-				} else if len(x.Rhs) == 1 {
-					rhs = w.text(x.Rhs[0])
-				}
-				op := ""
-				if x.Tok != token.ASSIGN {
-					op = x.Tok.String() + " "
-				}
-				w.emit("assignResult", leanStr(id.Name), leanStr(op+rhs))
 			}
+			t.assigned(names, r)
 		}
 	case *ast.SendStmt:
-		w.expr(x.Chan)
-		w.expr(x.Value)
-		w.emit("send", leanStr(w.text(x.Chan)))
+		t.expr(x.Chan)
+		t.expr(x.Value)
+		t.emit("send", leanStr(t.desc(x.Chan, t.frame())))
 	case *ast.GoStmt:
-		w.callOperands(x.Call)
-		w.emit("goCall", leanStr(calleeName(x.Call.Fun)))
-		if fl, ok := x.Call.Fun.(*ast.FuncLit); ok {
-			w.funcBody("funcLit", fl)
-		}
+		t.spawn(x.Call, "goFunc", "goCall")
 	case *ast.DeferStmt:
-		w.callOperands(x.Call)
-		if fl, ok := x.Call.Fun.(*ast.FuncLit); ok {
-			w.funcBody("deferFunc", fl)
-		} else {
-			w.emit("deferCall", leanStr(calleeName(x.Call.Fun)))
-		}
+		t.spawn(x.Call, "deferFunc", "deferCall")
 	case *ast.ReturnStmt:
-		var rs []string
-		for _, r := range x.Results {
-			w.expr(r)
-			rs = append(rs, w.text(r))
+		fr := t.frame()
+		if fr.condMode {
+			if len(x.Results) == 1 {
+				t.cond(x.Results[0], fr.retT, fr.retF)
+			} else {
+				// bare return of a named boolean result
+				name := "result<bool>"
+				if fr.sig != nil && fr.sig.Results().Len() == 1 {
+					name = t.descVar(fr.sig.Results().At(0), fr)
+				}
+				t.branch(name, false, fr.retT, fr.retF)
+			}
+			return
 		}
-		w.emit("ret", leanStr(strings.Join(rs, ", ")))
+		for _, r := range x.Results {
+			t.expr(r)
+		}
+		t.jump(fr.retTo)
 	case *ast.BranchStmt:
 		if x.Label != nil {
-			w.fail(s, "labelled %s is outside the subset", x.Tok)
+			t.fail(s, "labelled %s is outside the subset", x.Tok)
 			return
 		}
 		switch x.Tok {
 		case token.BREAK:
-			w.emit("brk")
+			j := t.findJump("loop", "switch", "select")
+			if j == nil {
+				t.fail(s, "break outside loop")
+				return
+			}
+			t.jump(j.brk)
 		case token.CONTINUE:
-			w.emit("cont")
+			j := t.findJump("loop")
+			if j == nil {
+				t.fail(s, "continue outside loop")
+				return
+			}
+			t.jump(j.cnt)
 		default:
-			w.fail(s, "%s is outside the subset", x.Tok)
+			t.fail(s, "%s is outside the subset", x.Tok)
 		}
 	case *ast.BlockStmt:
-		w.block(x)
+		t.block(x)
 	case *ast.IfStmt:
-		w.stmt(x.Init)
-		w.expr(x.Cond)
-		w.pruned(
-			func() { w.emit("ifBegin", leanStr(w.text(x.Cond))) },
-			func() {
-				w.block(x.Body)
-				if x.Else != nil {
-					w.emit("elseBegin")
-					w.stmt(x.Else)
-				}
-			},
-			"endIf", map[string]bool{"elseBegin": true})
+		t.stmt(x.Init)
+		thenN, elseN, join := t.g.node(), t.g.node(), t.g.node()
+		t.cond(x.Cond, thenN, elseN)
+		t.cur = thenN
+		t.block(x.Body)
+		t.jump(join)
+		t.cur = elseN
+		t.stmt(x.Else)
+		t.jump(join)
+		t.cur = join
 	case *ast.ForStmt:
-		w.stmt(x.Init)
-		// head: the printed `init; cond; post` (order of iteration lives here)
-		kind, head := "for", ""
-		if x.Init != nil || x.Cond != nil || x.Post != nil {
-			kind, head = "for-cond", w.text(x.Init)+"; "+w.text(x.Cond)+"; "+w.text(x.Post)
+		if sl, dir, ok := t.sliceLoop(x); ok {
+			t.expr(sl)
+			head, body, exit, post := t.g.node(), t.g.node(), t.g.node(), t.g.node()
+			t.jump(head)
+			t.cur = head
+			t.branch("range "+dir+" "+t.desc(sl, t.frame()), false, body, exit)
+			t.cur = body
+			// the post statement of a recognised counting loop has no events
+			t.loop(x.Body, head, exit, post, nil)
+			return
 		}
-		w.pruned(
-			func() { w.emit("loop", leanStr(kind), leanStr(head)) },
-			func() {
-				w.expr(x.Cond)
-				w.block(x.Body)
-				w.stmt(x.Post)
-			},
-			"endLoop", nil)
+		t.stmt(x.Init)
+		head, exit := t.g.node(), t.g.node()
+		cont := head
+		if x.Post != nil {
+			cont = t.g.node()
+		}
+		t.jump(head)
+		t.cur = head
+		if x.Cond != nil {
+			body := t.g.node()
+			t.cond(x.Cond, body, exit)
+			t.cur = body
+		}
+		t.loop(x.Body, head, exit, cont, x.Post)
 	case *ast.RangeStmt:
-		w.expr(x.X)
-		w.pruned(
-			func() { w.emit("loop", leanStr("range"), leanStr(w.text(x.X))) },
-			func() { w.block(x.Body) },
-			"endLoop", nil)
-	case *ast.SwitchStmt:
-		w.stmt(x.Init)
-		w.expr(x.Tag)
-		w.pruned(
-			func() { w.emit("switchBegin", leanStr(w.text(x.Tag))) },
-			func() {
-				for _, c := range x.Body.List {
-					cc := c.(*ast.CaseClause)
-					var es []string
-					for _, e := range cc.List {
-						w.expr(e)
-						es = append(es, leanStr(w.text(e)))
-					}
-					w.emit("caseExprs", "["+strings.Join(es, ", ")+"]")
-					for _, b := range cc.Body {
-						w.stmt(b)
-					}
+		tv := t.p.info.Types[x.X]
+		head, body, exit := t.g.node(), t.g.node(), t.g.node()
+		if _, isChan := tv.Type.Underlying().(*types.Chan); isChan {
+			t.expr(x.X)
+			d := t.desc(x.X, t.frame())
+			t.jump(head)
+			t.cur = head
+			t.emit("recv", leanStr(d))
+			t.branch("ok(<-"+d+")", false, body, exit)
+		} else {
+			src, dir := x.X, "forward"
+			if _, isSig := tv.Type.Underlying().(*types.Signature); isSig {
+				s, d, ok := t.iterSource(x.X)
+				if !ok {
+					t.fail(x, "range over an iterator function other than slices.Backward/All/Values is outside the subset")
+					return
 				}
-			},
-			"endSwitch", map[string]bool{"caseExprs": true})
+				src, dir = s, d
+			}
+			if _, isMap := tv.Type.Underlying().(*types.Map); isMap {
+				dir = "unordered"
+			}
+			t.expr(src)
+			t.jump(head)
+			t.cur = head
+			t.branch("range "+dir+" "+t.desc(src, t.frame()), false, body, exit)
+		}
+		t.cur = body
+		t.loop(x.Body, head, exit, head, nil)
+	case *ast.SwitchStmt:
+		t.stmt(x.Init)
+		tagDesc := ""
+		if x.Tag != nil {
+			t.expr(x.Tag)
+			tagDesc = t.desc(x.Tag, t.frame())
+		}
+		join := t.g.node()
+		var dflt *ast.CaseClause
+		t.jumps = append(t.jumps, sgJump{"switch", join, -1})
+		for _, c := range x.Body.List {
+			cc := c.(*ast.CaseClause)
+			for _, b := range cc.Body {
+				if br, ok := b.(*ast.BranchStmt); ok && br.Tok == token.FALLTHROUGH {
+					t.fail(b, "fallthrough is outside the subset")
+					return
+				}
+			}
+			if cc.List == nil {
+				dflt = cc
+				continue
+			}
+			bodyN, next := t.g.node(), t.g.node()
+			t.condAny(x.Tag, tagDesc, cc.List, bodyN, next)
+			t.cur = bodyN
+			for _, b := range cc.Body {
+				t.stmt(b)
+			}
+			t.jump(join)
+			t.cur = next
+		}
+		if dflt != nil {
+			for _, b := range dflt.Body {
+				t.stmt(b)
+			}
+		}
+		t.jumps = t.jumps[:len(t.jumps)-1]
+		t.jump(join)
+		t.cur = join
 	case *ast.SelectStmt:
 		// Go evaluates the channel operands (and send values) of every case, in source
 		// order, exactly once on entering the select.
-		type head struct{ ctor, ch string }
-		var heads []head
+		var heads []string
 		for _, c := range x.Body.List {
 			cc := c.(*ast.CommClause)
 			switch comm := cc.Comm.(type) {
 			case nil:
-				heads = append(heads, head{"caseDefault", ""})
+				heads = append(heads, ".caseDefault")
 			case *ast.SendStmt:
-				w.expr(comm.Chan)
-				w.expr(comm.Value)
-				heads = append(heads, head{"caseSend", w.text(comm.Chan)})
+				t.expr(comm.Chan)
+				t.expr(comm.Value)
+				heads = append(heads, ".caseSend "+leanStr(t.desc(comm.Chan, t.frame())))
 			case *ast.ExprStmt:
-				u, ok := comm.X.(*ast.UnaryExpr)
+				u, ok := sgUnparen(comm.X).(*ast.UnaryExpr)
 				if !ok || u.Op != token.ARROW {
-					w.fail(c, "unsupported select case")
+					t.fail(c, "unsupported select case")
 					return
 				}
-				w.expr(u.X)
-				heads = append(heads, head{"caseRecv", w.text(u.X)})
+				t.expr(u.X)
+				heads = append(heads, ".caseRecv "+leanStr(t.desc(u.X, t.frame())))
 			case *ast.AssignStmt:
-				u, ok := comm.Rhs[0].(*ast.UnaryExpr)
-				if !ok || u.Op != token.ARROW {
-					w.fail(c, "unsupported select case")
+				u, ok := sgUnparen(comm.Rhs[0]).(*ast.UnaryExpr)
+				if !ok || u.Op != token.ARROW || len(comm.Rhs) != 1 {
+					t.fail(c, "unsupported select case")
 					return
 				}
-				w.expr(u.X)
-				heads = append(heads, head{"caseRecv", w.text(u.X)})
+				for _, l := range comm.Lhs {
+					if _, isIdent := l.(*ast.Ident); !isIdent {
+						t.expr(l)
+					}
+				}
+				t.expr(u.X)
+				heads = append(heads, ".caseRecv "+leanStr(t.desc(u.X, t.frame())))
 			default:
-				w.fail(c, "unsupported select case")
+				t.fail(c, "unsupported select case")
 				return
 			}
 		}
-		w.emit("select")
+		t.emit("select")
+		choice, join := t.cur, t.g.node()
+		t.jumps = append(t.jumps, sgJump{"select", join, -1})
 		for i, c := range x.Body.List {
 			cc := c.(*ast.CommClause)
-			if heads[i].ctor == "caseDefault" {
-				w.emit("caseDefault")
-			} else {
-				w.emit(heads[i].ctor, leanStr(heads[i].ch))
+			b := t.g.node()
+			t.edge(choice, heads[i], b)
+			t.cur = b
+			for _, st := range cc.Body {
+				t.stmt(st)
 			}
-			for _, b := range cc.Body {
-				w.stmt(b)
+			t.jump(join)
+		}
+		t.jumps = t.jumps[:len(t.jumps)-1]
+		t.cur = join
+	default:
+		t.fail(s, "statement kind %T is outside the skeleton translator's subset", s)
+	}
+}
+
+// assigned translates the right-hand side of an assignment.  A literal bound to a local
+// that is only ever called is not shown here: it is inlined at its calls.
+func (t *sgTr) assigned(names []*ast.Ident, rhs ast.Expr) {
+	if lit, ok := sgUnparen(rhs).(*ast.FuncLit); ok && len(names) == 1 {
+		if v, ok := t.p.objOf(names[0]).(*types.Var); ok {
+			ds := t.p.defs[v]
+			onlyCalled := len(ds) == 1
+			for use, o := range t.p.info.Uses {
+				if o == v && !t.p.calleeIdents[use] {
+					onlyCalled = false
+				}
+			}
+			if onlyCalled && sgUnparen(ds[0].expr) == ast.Expr(lit) {
+				return
 			}
 		}
-		w.emit("endSelect")
-	default:
-		w.fail(s, "statement kind %T is outside the skeleton translator's subset", s)
 	}
+	t.expr(rhs)
+}
+
+// ---------------------------------------------------------------------------------------
+// normalisation
+
+// sgNormalise contracts ε-edges, quotients by bisimilarity, removes condition nodes whose
+// arms agree, and numbers the result breadth-first.
+func sgNormalise(g *sgGraph, entry int) ([][]sgEdge, error) {
+	// 1. ε-contraction
+	resolve := func(n int) (int, error) {
+		seen := map[int]bool{}
+		for {
+			es := g.out[n]
+			if len(es) == 1 && es[0].lbl == "" {
+				if seen[n] {
+					return 0, fmt.Errorf("a loop without any event and without exit condition")
+				}
+				seen[n] = true
+				n = es[0].to
+				continue
+			}
+			for _, e := range es {
+				if e.lbl == "" {
+					return 0, fmt.Errorf("internal: ε-edge next to other edges")
+				}
+			}
+			return n, nil
+		}
+	}
+	out := make([][]sgEdge, len(g.out))
+	for n := range g.out {
+		if len(g.out[n]) == 1 && g.out[n][0].lbl == "" {
+			continue
+		}
+		for _, e := range g.out[n] {
+			to, err := resolve(e.to)
+			if err != nil {
+				return nil, err
+			}
+			out[n] = append(out[n], sgEdge{e.lbl, to})
+		}
+	}
+	root, err := resolve(entry)
+	if err != nil {
+		return nil, err
+	}
+	isCond := func(es []sgEdge) bool {
+		if len(es) == 0 {
+			return false
+		}
+		for _, e := range es {
+			if !strings.HasPrefix(e.lbl, ".cond ") {
+				return false
+			}
+		}
+		return true
+	}
+	for round := 0; ; round++ {
+		if round > 10000 {
+			return nil, fmt.Errorf("internal: normalisation does not terminate")
+		}
+		// 2. reachable part
+		reach := map[int]bool{root: true}
+		stack := []int{root}
+		for len(stack) > 0 {
+			n := stack[len(stack)-1]
+			stack = stack[:len(stack)-1]
+			for _, e := range out[n] {
+				if !reach[e.to] {
+					reach[e.to] = true
+					stack = append(stack, e.to)
+				}
+			}
+		}
+		// determinism
+		for n := range reach {
+			seen := map[string]bool{}
+			for _, e := range out[n] {
+				if seen[e.lbl] {
+					return nil, fmt.Errorf("two choices with the same label %s at one point (two select cases on the same channel?)", e.lbl)
+				}
+				seen[e.lbl] = true
+			}
+		}
+		// 3. bisimulation classes (Moore refinement)
+		class := map[int]int{}
+		for n := range reach {
+			class[n] = 0
+		}
+		for {
+			sigs := map[string]int{}
+			next := map[int]int{}
+			var nodes []int
+			for n := range reach {
+				nodes = append(nodes, n)
+			}
+			sort.Ints(nodes)
+			for _, n := range nodes {
+				var parts []string
+				for _, e := range out[n] {
+					parts = append(parts, fmt.Sprintf("%s\x00%d", e.lbl, class[e.to]))
+				}
+				sort.Strings(parts)
+				sig := fmt.Sprintf("%d\x01%s", class[n], strings.Join(parts, "\x02"))
+				id, ok := sigs[sig]
+				if !ok {
+					id = len(sigs)
+					sigs[sig] = id
+				}
+				next[n] = id
+			}
+			same := true
+			cnt := map[int]bool{}
+			for _, c := range class {
+				cnt[c] = true
+			}
+			if len(sigs) != len(cnt) {
+				same = false
+			}
+			class = next
+			if same {
+				break
+			}
+		}
+		// quotient: representative = smallest node of the class
+		rep := map[int]int{}
+		var nodes []int
+		for n := range reach {
+			nodes = append(nodes, n)
+		}
+		sort.Ints(nodes)
+		for _, n := range nodes {
+			if _, ok := rep[class[n]]; !ok {
+				rep[class[n]] = n
+			}
+		}
+		changed := false
+		q := make([][]sgEdge, len(out))
+		for _, n := range nodes {
+			if rep[class[n]] != n {
+				changed = true
+				continue
+			}
+			for _, e := range out[n] {
+				q[n] = append(q[n], sgEdge{e.lbl, rep[class[e.to]]})
+			}
+		}
+		root = rep[class[root]]
+		out = q
+		// 4. remove condition nodes whose arms agree (ignoring arms that loop back to the node)
+		redirect := map[int]int{}
+		for _, n := range nodes {
+			if rep[class[n]] != n || !isCond(out[n]) {
+				continue
+			}
+			tg := map[int]bool{}
+			for _, e := range out[n] {
+				if e.to != n {
+					tg[e.to] = true
+				}
+			}
+			if len(tg) == 0 {
+				return nil, fmt.Errorf("a loop without any event and without exit")
+			}
+			if len(tg) == 1 {
+				for to := range tg {
+					redirect[n] = to
+				}
+			}
+		}
+		if len(redirect) > 0 {
+			changed = true
+			final := func(n int) (int, error) {
+				seen := map[int]bool{}
+				for {
+					to, ok := redirect[n]
+					if !ok {
+						return n, nil
+					}
+					if seen[n] {
+						return 0, fmt.Errorf("a cycle of conditions without any event")
+					}
+					seen[n] = true
+					n = to
+				}
+			}
+			for n := range out {
+				for i, e := range out[n] {
+					to, err := final(e.to)
+					if err != nil {
+						return nil, err
+					}
+					out[n][i].to = to
+				}
+			}
+			r, err := final(root)
+			if err != nil {
+				return nil, err
+			}
+			root = r
+		}
+		// 4b. chains of conditions (no event in between) that share a target are one
+		// disjunction: `a: T->Z, F->m; m: b: T->Z, F->Y` is `a || b: T->Z, F->Y`, literals
+		// sorted.  (`a && b` is the chain towards the false target: `!(a) || !(b)`.)
+		if len(redirect) == 0 {
+			for _, n := range nodes {
+				if rep[class[n]] != n {
+					continue
+				}
+				cn, ok := sgCondOf(out[n])
+				if !ok {
+					continue
+				}
+				for _, pair := range [][2]int{{cn.t, cn.f}, {cn.f, cn.t}} {
+					m, z := pair[0], pair[1]
+					if m == n || m == z {
+						continue
+					}
+					cm, ok := sgCondOf(out[m])
+					if !ok {
+						continue
+					}
+					y := -1
+					switch {
+					case cm.t == z && cm.f != z:
+						y = cm.f
+					case cm.f == z && cm.t != z:
+						y = cm.t
+					default:
+						continue
+					}
+					ln, ok1 := cn.litsTowards(z)
+					lm, ok2 := cm.litsTowards(z)
+					if !ok1 || !ok2 {
+						continue
+					}
+					all := append(append([]string(nil), ln...), lm...)
+					sort.Strings(all)
+					all = sgDedup(all)
+					label, tgtT, tgtF := strings.Join(all, " || "), z, y
+					if len(all) == 1 {
+						if inner, neg := sgNegated(all[0]); neg {
+							label, tgtT, tgtF = inner, y, z
+						}
+					}
+					out[n] = []sgEdge{{".cond " + leanStr(label) + " true", tgtT}, {".cond " + leanStr(label) + " false", tgtF}}
+					changed = true
+					break
+				}
+			}
+		}
+		if !changed {
+			break
+		}
+	}
+	// 5. canonical numbering
+	num := map[int]int{root: 0}
+	order := []int{root}
+	for i := 0; i < len(order); i++ {
+		es := append([]sgEdge(nil), out[order[i]]...)
+		sort.Slice(es, func(a, b int) bool { return es[a].lbl < es[b].lbl })
+		out[order[i]] = es
+		for _, e := range es {
+			if _, ok := num[e.to]; !ok {
+				num[e.to] = len(order)
+				order = append(order, e.to)
+			}
+		}
+	}
+	res := make([][]sgEdge, len(order))
+	for i, n := range order {
+		for _, e := range out[n] {
+			res[i] = append(res[i], sgEdge{e.lbl, num[e.to]})
+		}
+	}
+	return res, nil
+}
+
+// sgCond is a condition node: label and the two targets.
+type sgCond struct {
+	label string // unescaped
+	t, f  int
+}
+
+func sgCondOf(es []sgEdge) (sgCond, bool) {
+	if len(es) != 2 {
+		return sgCond{}, false
+	}
+	var c sgCond
+	seenT, seenF := false, false
+	for _, e := range es {
+		if !strings.HasPrefix(e.lbl, ".cond \"") {
+			return sgCond{}, false
+		}
+		switch {
+		case strings.HasSuffix(e.lbl, "\" true"):
+			c.label, c.t, seenT = sgUnlean(strings.TrimSuffix(strings.TrimPrefix(e.lbl, ".cond \""), "\" true")), e.to, true
+		case strings.HasSuffix(e.lbl, "\" false"):
+			c.f, seenF = e.to, true
+		}
+	}
+	return c, seenT && seenF
+}
+
+func sgUnlean(s string) string {
+	s = strings.ReplaceAll(s, "\\\"", "\"")
+	return strings.ReplaceAll(s, "\\\\", "\\")
+}
+
+// sgSplitOr splits a label at the top-level " || ".
+func sgSplitOr(s string) []string {
+	var parts []string
+	depth, start := 0, 0
+	for i := 0; i < len(s); i++ {
+		switch s[i] {
+		case '(', '[', '{':
+			depth++
+		case ')', ']', '}':
+			depth--
+		}
+		if depth == 0 && strings.HasPrefix(s[i:], " || ") {
+			parts = append(parts, s[start:i])
+			start = i + 4
+			i += 3
+		}
+	}
+	return append(parts, s[start:])
+}
+
+func sgNegated(l string) (string, bool) {
+	if strings.HasPrefix(l, "!(") && strings.HasSuffix(l, ")") {
+		// the parenthesis opened at 1 must close at the end
+		depth := 0
+		for i := 1; i < len(l); i++ {
+			switch l[i] {
+			case '(':
+				depth++
+			case ')':
+				depth--
+				if depth == 0 && i != len(l)-1 {
+					return "", false
+				}
+			}
+		}
+		return l[2 : len(l)-1], true
+	}
+	return "", false
+}
+
+// litsTowards: the literals whose disjunction sends the node to target.
+func (c sgCond) litsTowards(target int) ([]string, bool) {
+	parts := sgSplitOr(c.label)
+	switch {
+	case c.t == target && c.f != target:
+		return parts, true
+	case c.f == target && c.t != target && len(parts) == 1:
+		if inner, neg := sgNegated(parts[0]); neg {
+			return []string{inner}, true
+		}
+		return []string{"!(" + parts[0] + ")"}, true
+	}
+	return nil, false
+}
+
+// sgRender prints the graph as indented pseudo-code (for the human reader; a comment).
+func sgRender(g [][]sgEdge) string {
+	indeg := make([]int, len(g))
+	for _, es := range g {
+		for _, e := range es {
+			indeg[e.to]++
+		}
+	}
+	var b strings.Builder
+	done := make([]bool, len(g))
+	var walk func(n int, ind string)
+	walk = func(n int, ind string) {
+		for {
+			if done[n] {
+				fmt.Fprintf(&b, "%sgoto L%d\n", ind, n)
+				return
+			}
+			done[n] = true
+			if indeg[n] > 1 || n == 0 && indeg[n] > 0 {
+				fmt.Fprintf(&b, "%sL%d:\n", ind, n)
+			}
+			es := g[n]
+			if len(es) == 0 {
+				fmt.Fprintf(&b, "%send\n", ind)
+				return
+			}
+			if len(es) == 1 {
+				fmt.Fprintf(&b, "%s%s\n", ind, strings.TrimPrefix(es[0].lbl, "."))
+				n = es[0].to
+				continue
+			}
+			for _, e := range es {
+				fmt.Fprintf(&b, "%s%s:\n", ind, strings.TrimPrefix(e.lbl, "."))
+				walk(e.to, ind+"    ")
+			}
+			return
+		}
+	}
+	walk(0, "  ")
+	return b.String()
 }
 
 func skelLeanName(t skelTarget) string {
@@ -586,73 +2221,149 @@ func skelLeanName(t skelTarget) string {
 	return base + "_" + t.recv + "_" + t.name
 }
 
+func sgRecvName(fn *types.Func) string {
+	sig, ok := fn.Type().(*types.Signature)
+	if !ok || sig.Recv() == nil {
+		return ""
+	}
+	rt := sig.Recv().Type()
+	if p, ok := rt.(*types.Pointer); ok {
+		rt = p.Elem()
+	}
+	if n, ok := types.Unalias(rt).(*types.Named); ok {
+		return n.Obj().Name()
+	}
+	return "?"
+}
+
+// sgTranslate builds the normalised event graph of one entry point.
+func sgTranslate(p *sgPkg, fn *types.Func, fd *ast.FuncDecl) ([][]sgEdge, error) {
+	t := &sgTr{p: p, g: &sgGraph{}, visiting: map[types.Object]bool{}}
+	entry := t.g.node()
+	end := t.g.node()
+	t.cur = entry
+	sig, _ := fn.Type().(*types.Signature)
+	top := &sgFrame{fn: fn, ftype: fd.Type, sig: sig, env: map[types.Object]string{}}
+	if fd.Recv != nil && len(fd.Recv.List) == 1 && len(fd.Recv.List[0].Names) == 1 {
+		if o := p.info.Defs[fd.Recv.List[0].Names[0]]; o != nil {
+			top.env[o] = "recv"
+		}
+	}
+	i := 0
+	if fd.Type.Params != nil {
+		for _, f := range fd.Type.Params.List {
+			for _, n := range f.Names {
+				if o := p.info.Defs[n]; o != nil {
+					top.env[o] = fmt.Sprintf("p%d", i)
+				}
+				i++
+			}
+			if len(f.Names) == 0 {
+				i++
+			}
+		}
+	}
+	if sgSingleBool(sig) {
+		top.condMode = true
+		top.retT, top.retF = t.g.node(), t.g.node()
+		t.edge(top.retT, ".ret "+leanStr("true"), end)
+		t.edge(top.retF, ".ret "+leanStr("false"), end)
+		top.retTo = -1
+	} else {
+		top.retTo = t.g.node()
+		t.edge(top.retTo, ".ret "+leanStr(""), end)
+	}
+	t.frames = []*sgFrame{top}
+	t.block(fd.Body)
+	if !top.condMode {
+		t.jump(top.retTo)
+	}
+	if t.err != nil {
+		return nil, t.err
+	}
+	return sgNormalise(t.g, entry)
+}
+
 func genSyncSkel(repo string) (string, error) {
 	var b strings.Builder
 	b.WriteString("import GolibsVerif.Go.Skel\n\nnamespace GolibsVerif.Gen.SyncSkel\nopen GolibsVerif.Skel\n\n")
-	type parsed struct {
-		fset  *token.FileSet
-		files []*ast.File
+	fset := token.NewFileSet()
+	// The source importer resolves module imports with `go list`, which go/build runs in
+	// build.Default.Dir: point it at the repository for the duration of this translator.
+	saveDir := build.Default.Dir
+	build.Default.Dir = repo
+	defer func() { build.Default.Dir = saveDir }()
+	imp := importer.ForCompiler(fset, "source", nil)
+	type loaded struct {
+		p   *sgPkg
+		err error
 	}
-	cache := map[string]parsed{}
+	cache := map[string]loaded{}
 	seen := map[string]bool{}
 	for _, g := range skelTable {
-		tracked := map[string]bool{}
-		for _, c := range g.calls {
-			tracked[c] = true
-		}
-		for _, t := range g.targets {
-			name := skelLeanName(t)
+		for _, tg := range g.targets {
+			name := skelLeanName(tg)
 			if seen[name] {
 				return "", fmt.Errorf("skeleton %s is listed twice in skelTable", name)
 			}
 			seen[name] = true
-			p, ok := cache[t.pkgDir]
+			l, ok := cache[tg.pkgDir]
 			if !ok {
-				fset, files, err := skelParseDir(filepath.Join(repo, t.pkgDir))
-				if err != nil {
-					return "", err
-				}
-				p = parsed{fset, files}
-				cache[t.pkgDir] = p
+				p, err := sgLoad(filepath.Join(repo, tg.pkgDir), fset, imp)
+				l = loaded{p, err}
+				cache[tg.pkgDir] = l
 			}
-			var found []*ast.FuncDecl
-			var where string
-			for _, f := range p.files {
-				for _, d := range f.Decls {
-					fd, ok := d.(*ast.FuncDecl)
-					if ok && fd.Name.Name == t.name && recvTypeName(fd) == t.recv && fd.Body != nil {
-						found = append(found, fd)
-						where = filepath.Base(p.fset.Position(fd.Pos()).Filename)
+			// A target that cannot be translated gets a sentinel graph: only the obligations
+			// of the property that registered it break, not the whole file.
+			var graph [][]sgEdge
+			problem, where := "", ""
+			if l.err != nil {
+				problem = l.err.Error()
+			} else {
+				var found []*types.Func
+				for fn := range l.p.decls {
+					if fn.Name() == tg.name && sgRecvName(fn) == tg.recv {
+						found = append(found, fn)
+					}
+				}
+				if len(found) != 1 {
+					problem = fmt.Sprintf("expected exactly one definition of (%s).%s in %s, found %d", tg.recv, tg.name, tg.pkgDir, len(found))
+				} else {
+					fd := l.p.decls[found[0]]
+					where = filepath.Base(l.p.fset.Position(fd.Pos()).Filename)
+					gr, err := sgTranslate(l.p, found[0], fd)
+					if err != nil {
+						problem = err.Error()
+					} else if len(gr) > 400 {
+						problem = fmt.Sprintf("event graph has %d states (limit 400)", len(gr))
+					} else {
+						graph = gr
 					}
 				}
 			}
-			// A target that cannot be translated gets a sentinel skeleton: only the
-			// obligations of the property that registered it break, not the whole file.
-			var toks []string
-			problem := ""
-			if len(found) != 1 {
-				problem = fmt.Sprintf("expected exactly one definition of (%s).%s in %s, found %d", t.recv, t.name, t.pkgDir, len(found))
-			} else {
-				fd := found[0]
-				w := &skelWalker{fset: p.fset, tracked: tracked}
-				w.emit("fn", leanStr(t.recv), leanStr(t.name))
-				w.results = append(w.results, resultNames(fd.Type))
-				w.block(fd.Body)
-				toks = w.toks
-				if w.err != nil {
-					problem = strings.TrimPrefix(w.err.Error(), repo+"/")
-				}
-			}
 			if problem != "" {
+				problem = strings.ReplaceAll(problem, repo+"/", "")
 				fmt.Fprintf(os.Stderr, "gen SyncSkel: %s (property %s): %s\n", name, g.prop, problem)
-				toks = []string{".untranslatable " + leanStr(problem)}
+				graph = [][]sgEdge{{{".untranslatable " + leanStr(problem), 0}}}
 			}
 			recv := ""
-			if t.recv != "" {
-				recv = "(" + t.recv + ")."
+			if tg.recv != "" {
+				recv = "(" + tg.recv + ")."
 			}
-			fmt.Fprintf(&b, "/-- `%s.%s%s` (%s/%s), property %s -/\ndef %s : Skeleton := [\n  %s\n]\n\n",
-				filepath.Base(t.pkgDir), recv, t.name, t.pkgDir, where, g.prop, name, strings.Join(toks, ",\n  "))
+			fmt.Fprintf(&b, "/-- `%s.%s%s` (%s/%s), property %s; states are numbered breadth-first, `0` is the entry.\n```\n%s```\n-/\ndef %s : Graph := [\n",
+				filepath.Base(tg.pkgDir), recv, tg.name, tg.pkgDir, where, g.prop, sgRender(graph), name)
+			for n, es := range graph {
+				var parts []string
+				for _, e := range es {
+					parts = append(parts, fmt.Sprintf("(%s, %d)", e.lbl, e.to))
+				}
+				sep := ","
+				if n == len(graph)-1 {
+					sep = ""
+				}
+				fmt.Fprintf(&b, "  /- %d -/ [%s]%s\n", n, strings.Join(parts, ", "), sep)
+			}
+			b.WriteString("]\n\n")
 		}
 	}
 	b.WriteString("end GolibsVerif.Gen.SyncSkel\n")
